@@ -15,6 +15,7 @@ import KlogV.Lemmas.Refine
 import KlogV.Props.C04b
 import KlogV.Spec.Grammar
 import KlogV.Props.Rx.Reconciler
+import KlogV.Props.Rx.Model
 namespace KlogV.C04
 
 /-- The pause loop: for EVERY sequence of clock readings — including backwards jumps and
